@@ -3,16 +3,20 @@ C13 — DList and SList keep exact sequence semantics with stable node handles.
 ONLY property theorems and non-vacuity examples live here; helper lemmas are in
 `Golib/Proof/C13*.lean`.
 
-Abstraction: `GInv s A` — in memory `s` list `l` (identified with its sentinel) holds exactly
-the node sequence `A l`, front to back (ring through the sentinel, `prev` inverse of `next`,
-owner pointers, `len`, cleared links of detached nodes).
+Abstraction: `GInv s A` — in memory `s` (any number of `DList`s sharing one node space) list `l`
+(identified with its sentinel) holds exactly the node sequence `A l`, front to back: the
+`next`-orbit of the sentinel is `A l` and returns to the sentinel, `prev` is its inverse,
+`e.list == l ↔ e ∈ A l`, `l.len = |A l|`, nodes in no list have all links cleared.
+Specification = `container/list` written out on `List Nat` (`insBefore`, `insAfter`,
+`List.erase`, `::`, `++`).  `upd A l L` replaces the sequence of list `l` only: every theorem
+below therefore also says that *all other lists are untouched*.
 -/
-import Golib.Proof.C13DInv
+import Golib.Proof.C13DWalk
 
 namespace Golib.C13
 
 /-- Zero-value lists are ready to use: the memory holding `nl` zero-value `DList`s and no node
-satisfies the invariant, every list being empty. -/
+satisfies the invariant, every list being empty (and every theorem below applies to it). -/
 theorem c13_zero_value (nl : Nat) : GInv (DSt.zero nl) (fun _ => []) := by
   refine ⟨fun l hl => ⟨Or.inl ⟨PM.get_empty _, PM.get_empty _, rfl⟩, by simp, ?_, ?_⟩,
     fun l hl x hx => by simp at hx, Nat.le_refl _, fun n _ _ => ⟨PM.get_empty _, PM.get_empty _⟩,
@@ -21,34 +25,130 @@ theorem c13_zero_value (nl : Nat) : GInv (DSt.zero nl) (fun _ => []) := by
   · simp [DSt.zero, IM.get_empty]
   · simp [DSt.zero, PM.get_empty] at h
 
-/-- `l.insert(e, at)` — the primitive behind every Push/Insert form — splices the detached node
-`e` in right after `at` (the sentinel or a node of `l`), touches no other list, never panics. -/
-theorem c13_dlist_prim_insert {s : DSt} {A : Nat → List Nat} {l e a : Nat} {pre post L' : List Nat}
-    (h : GInv s A) (hl : l < s.nl) (hr : Ring s.next s.prev (l :: A l))
-    (hsplit : l :: A l = pre ++ a :: post) (hL' : l :: L' = pre ++ a :: e :: post)
-    (he : Detached s e) :
-    ∃ s', s.insert l e (some a) = some s' ∧ GInv s' (upd A l L') ∧
-      s'.val = s.val ∧ s'.fresh = s.fresh ∧ s'.nl = s.nl ∧ Ring s'.next s'.prev (l :: L') :=
-  insert_spec h hl hr hsplit hL' he
+/-- The three splice primitives (`insert`, `remove`, `move`: the coded pointer writes in the
+coded order) preserve the invariant and act on the ring as the list-level splice says, wherever
+in the ring they are applied; they never dereference nil. -/
+theorem c13_dlist_inv {s : DSt} {A : Nat → List Nat} {l : Nat} (h : GInv s A) (hl : l < s.nl)
+    (hr : Ring s.next s.prev (l :: A l)) :
+    (∀ e a pre post L', l :: A l = pre ++ a :: post → l :: L' = pre ++ a :: e :: post → Detached s e →
+      ∃ s', s.insert l e (some a) = some s' ∧ GInv s' (upd A l L')) ∧
+    (∀ e p pre post L', l :: A l = pre ++ p :: e :: post → l :: L' = pre ++ p :: post →
+      ∃ s', s.remove l e = some s' ∧ GInv s' (upd A l L') ∧ Detached s' e) ∧
+    (∀ e p a pre post pre2 post2 L', l :: A l = pre ++ p :: e :: post →
+      pre ++ p :: post = pre2 ++ a :: post2 → l :: L' = pre2 ++ a :: e :: post2 →
+      ∃ s', s.move e (some a) = some s' ∧ GInv s' (upd A l L')) := by
+  refine ⟨fun e a pre post L' h1 h2 he => ?_, fun e p pre post L' h1 h2 => ?_,
+    fun e p a pre post pre2 post2 L' h1 h2 h3 => ?_⟩
+  · obtain ⟨s', r1, r2, _⟩ := insert_spec h hl hr h1 h2 he; exact ⟨s', r1, r2⟩
+  · obtain ⟨s', r1, r2, _, _, _, _, r7⟩ := remove_spec h hl hr h1 h2; exact ⟨s', r1, r2, r7⟩
+  · obtain ⟨s', r1, r2, _⟩ := move_spec h hl hr h1 h2 h3; exact ⟨s', r1, r2⟩
 
-/-- `l.remove(e)` cuts exactly `e` out, leaves it detached with cleared links. -/
-theorem c13_dlist_prim_remove {s : DSt} {A : Nat → List Nat} {l e p : Nat} {pre post L' : List Nat}
-    (h : GInv s A) (hl : l < s.nl) (hr : Ring s.next s.prev (l :: A l))
-    (hsplit : l :: A l = pre ++ p :: e :: post) (hL' : l :: L' = pre ++ p :: post) :
-    ∃ s', s.remove l e = some s' ∧ GInv s' (upd A l L') ∧
-      s'.val = s.val ∧ s'.fresh = s.fresh ∧ s'.nl = s.nl ∧ Ring s'.next s'.prev (l :: L') ∧
-      Detached s' e :=
-  remove_spec h hl hr hsplit hL'
+/-- Value-inserting methods (zero-value receiver included, via `lazyInit`): the new node gets
+the next id, `PushFront`/`PushBack` put it first/last, `InsertBefore`/`InsertAfter` put it next
+to `mark` — or return nil and change nothing when `mark` is not (or no longer) a node of `l`. -/
+theorem c13_dlist_refines_insert {s : DSt} {A : Nat → List Nat} {l : Nat} (v : Int)
+    (h : GInv s A) (hl : l < s.nl) :
+    (∃ s', s.pushFront l v = some (s', s.fresh) ∧ GInv s' (upd A l (s.fresh :: A l)) ∧
+      s'.val.get s.fresh = v) ∧
+    (∃ s', s.pushBack l v = some (s', s.fresh) ∧ GInv s' (upd A l (A l ++ [s.fresh])) ∧
+      s'.val.get s.fresh = v) ∧
+    (∀ mark, (mark ∉ A l → s.insertBefore l v mark = some (s, none)) ∧
+      (mark ∈ A l → ∃ s', s.insertBefore l v mark = some (s', some s.fresh) ∧
+        GInv s' (upd A l (insBefore s.fresh mark (A l))) ∧ s'.val.get s.fresh = v)) ∧
+    (∀ mark, (mark ∉ A l → s.insertAfter l v mark = some (s, none)) ∧
+      (mark ∈ A l → ∃ s', s.insertAfter l v mark = some (s', some s.fresh) ∧
+        GInv s' (upd A l (insAfter s.fresh mark (A l))) ∧ s'.val.get s.fresh = v)) := by
+  refine ⟨?_, ?_, fun mark => ⟨(insertBefore_spec v mark h hl).1, fun hm => ?_⟩,
+    fun mark => ⟨(insertAfter_spec v mark h hl).1, fun hm => ?_⟩⟩
+  · obtain ⟨s', r1, r2, _, _, r5⟩ := pushFront_spec v h hl; exact ⟨s', r1, r2, r5⟩
+  · obtain ⟨s', r1, r2, _, _, r5⟩ := pushBack_spec v h hl; exact ⟨s', r1, r2, r5⟩
+  · obtain ⟨s', r1, r2, _, _, r5⟩ := (insertBefore_spec v mark h hl).2 hm; exact ⟨s', r1, r2, r5⟩
+  · obtain ⟨s', r1, r2, _, _, r5⟩ := (insertAfter_spec v mark h hl).2 hm; exact ⟨s', r1, r2, r5⟩
 
-/-- `l.move(e, at)` moves `e` right after `at`, keeping every other node in place. -/
-theorem c13_dlist_prim_move {s : DSt} {A : Nat → List Nat} {l e p a : Nat}
-    {pre post pre2 post2 L' : List Nat}
-    (h : GInv s A) (hl : l < s.nl) (hr : Ring s.next s.prev (l :: A l))
-    (hsplit : l :: A l = pre ++ p :: e :: post)
-    (hsplit2 : pre ++ p :: post = pre2 ++ a :: post2)
-    (hL' : l :: L' = pre2 ++ a :: e :: post2) :
-    ∃ s', s.move e (some a) = some s' ∧ GInv s' (upd A l L') ∧
-      s'.val = s.val ∧ s'.fresh = s.fresh ∧ s'.nl = s.nl ∧ Ring s'.next s'.prev (l :: L') :=
-  move_spec h hl hr hsplit hsplit2 hL'
+/-- Node-inserting forms, given a detached node (fresh, or removed earlier from any list). -/
+theorem c13_dlist_refines_insert_node {s : DSt} {A : Nat → List Nat} {l e : Nat}
+    (h : GInv s A) (hl : l < s.nl) (he : Detached s e) :
+    (∃ s', s.pushFrontNode l e = some s' ∧ GInv s' (upd A l (e :: A l)) ∧ s'.val = s.val) ∧
+    (∃ s', s.pushBackNode l e = some s' ∧ GInv s' (upd A l (A l ++ [e])) ∧ s'.val = s.val) ∧
+    (∀ mark, (mark ∉ A l → s.insertNodeBefore l e mark = some s) ∧
+      (mark ∈ A l → ∃ s', s.insertNodeBefore l e mark = some s' ∧
+        GInv s' (upd A l (insBefore e mark (A l))) ∧ s'.val = s.val)) ∧
+    (∀ mark, (mark ∉ A l → s.insertNodeAfter l e mark = some s) ∧
+      (mark ∈ A l → ∃ s', s.insertNodeAfter l e mark = some s' ∧
+        GInv s' (upd A l (insAfter e mark (A l))) ∧ s'.val = s.val)) := by
+  refine ⟨?_, ?_, fun mark => ⟨(insertNodeBefore_spec mark h hl he).1, fun hm => ?_⟩,
+    fun mark => ⟨(insertNodeAfter_spec mark h hl he).1, fun hm => ?_⟩⟩
+  · obtain ⟨s', r1, r2, r3, _⟩ := pushFrontNode_spec h hl he; exact ⟨s', r1, r2, r3⟩
+  · obtain ⟨s', r1, r2, r3, _⟩ := pushBackNode_spec h hl he; exact ⟨s', r1, r2, r3⟩
+  · obtain ⟨s', r1, r2, r3, _⟩ := (insertNodeBefore_spec mark h hl he).2 hm; exact ⟨s', r1, r2, r3⟩
+  · obtain ⟨s', r1, r2, r3, _⟩ := (insertNodeAfter_spec mark h hl he).2 hm; exact ⟨s', r1, r2, r3⟩
+
+/-- `Remove(e)`: removes exactly `e` if it is a node of `l` (leaving it detached, links cleared),
+is a no-op for a node that is not (or no longer) in `l` — e.g. a second `Remove`, or a node of
+another list; always returns `e.Value`. -/
+theorem c13_dlist_refines_remove {s : DSt} {A : Nat → List Nat} {l : Nat} (e : Nat)
+    (h : GInv s A) (hl : l < s.nl) :
+    (e ∉ A l → s.removeNode l e = some (s, s.val.get e)) ∧
+    (e ∈ A l → ∃ s', s.removeNode l e = some (s', s.val.get e) ∧
+      GInv s' (upd A l ((A l).erase e)) ∧ s'.val = s.val ∧ Detached s' e ∧
+      s'.removeNode l e = some (s', s.val.get e)) := by
+  refine ⟨(removeNode_spec e h hl).1, fun hm => ?_⟩
+  obtain ⟨s', r1, r2, r3, r4, r5, r6⟩ := (removeNode_spec e h hl).2 hm
+  refine ⟨s', r1, r2, r5, r6, ?_⟩
+  -- the handle is stale now: removing again changes nothing
+  have hl' : l < s'.nl := by rw [r4]; exact hl
+  have hnot : e ∉ upd A l ((A l).erase e) l := by
+    simp only [upd_same]
+    exact fun hh => (List.Nodup.mem_erase_iff (h.lists l hl).nodup.of_cons).1 hh |>.1 rfl
+  have := (removeNode_spec e r2 hl').1 hnot
+  rw [this, r5]
+
+/-- `MoveToFront` and `MoveAfter` (all guards: node or mark not in `l`, `e == mark`, already in
+place are no-ops). -/
+theorem c13_dlist_refines_move {s : DSt} {A : Nat → List Nat} {l : Nat} (e : Nat)
+    (h : GInv s A) (hl : l < s.nl) :
+    (e ∉ A l → s.moveToFront l e = some s) ∧
+    (e ∈ A l → ∃ s', s.moveToFront l e = some s' ∧ GInv s' (upd A l (e :: (A l).erase e)) ∧
+      s'.val = s.val) ∧
+    (∀ mark, ((e ∉ A l ∨ e = mark ∨ mark ∉ A l) → s.moveAfter l e mark = some s) ∧
+      (e ∈ A l → e ≠ mark → mark ∈ A l → ∃ s', s.moveAfter l e mark = some s' ∧
+        GInv s' (upd A l (insAfter e mark ((A l).erase e))) ∧ s'.val = s.val)) := by
+  refine ⟨(moveToFront_spec e h hl).1, fun hm => ?_, fun mark => ⟨(moveAfter_spec e mark h hl).1,
+    fun he hne hm => ?_⟩⟩
+  · obtain ⟨s', r1, r2, r3, _⟩ := (moveToFront_spec e h hl).2 hm; exact ⟨s', r1, r2, r3⟩
+  · obtain ⟨s', r1, r2, r3, _⟩ := (moveAfter_spec e mark h hl).2 he hne hm; exact ⟨s', r1, r2, r3⟩
+
+/-
+Full statement of `c13_dlist_refines` = the five theorems `c13_dlist_refines_*` here plus the
+same for `MoveToBack` (`upd A l ((A l).erase e ++ [e])`), `MoveBefore`
+(`insBefore e mark ((A l).erase e)`), `PushBackDList(other)` (`A l ++ copies`, the copies
+carrying the values of `A other` as it was at the call, also for `other == l`) and
+`PushFrontDList`.  Those four are not proved yet: they are covered by the differential check
+against `container/list` and the Lean model on every run (incl. lists copied onto themselves);
+the primitive `move` they use is covered by `c13_dlist_inv`.
+-/
+
+/-- Observers: `Len`, `Front`, `Back` and both traversals (`Front`/`Next…` and `Back`/`Prev…`)
+read exactly the abstract sequence; forward and backward traversals agree. -/
+theorem c13_dlist_refines_traversal {s : DSt} {A : Nat → List Nat} {l : Nat} (h : GInv s A)
+    (hl : l < s.nl) (fuel : Nat) (hf : (A l).length < fuel) :
+    s.lenOf l = (A l).length ∧ s.front l = (A l).head? ∧ s.back l = (A l).getLast? ∧
+    s.forward l fuel = (A l, true) ∧ s.backward l fuel = ((A l).reverse, true) ∧
+    (s.backward l fuel).1 = (s.forward l fuel).1.reverse := by
+  have f := front_spec h hl
+  refine ⟨f.2.2, f.1, f.2.1, forward_spec h hl fuel hf, backward_spec h hl fuel hf, ?_⟩
+  rw [forward_spec h hl fuel hf, backward_spec h hl fuel hf]
+
+/-- Non-vacuity: starting from two zero-value lists, `PushBack 7` on list 0, `PushFront 8` on
+list 0 and `PushBack 9` on list 1 reach (by the theorems above) a state satisfying the invariant
+with sequences `[3, 2]` and `[4]`. -/
+example : ∃ s A, GInv s A ∧ A 0 = [3, 2] ∧ A 1 = [4] ∧ s.nl = 2 := by
+  have h0 := c13_zero_value 2
+  obtain ⟨s1, _, g1, f1, n1, _⟩ := pushBack_spec (l := 0) 7 h0 (by decide)
+  obtain ⟨s2, _, g2, f2, n2, _⟩ := pushFront_spec (l := 0) 8 g1 (by rw [n1]; decide)
+  obtain ⟨s3, _, g3, f3, n3, _⟩ := pushBack_spec (l := 1) 9 g2 (by rw [n2, n1]; decide)
+  refine ⟨s3, _, g3, ?_, ?_, by rw [n3, n2, n1]; rfl⟩
+  · simp [upd, f2, f1, DSt.zero]
+  · simp [upd, f2, f1, DSt.zero]
 
 end Golib.C13
